@@ -189,12 +189,12 @@ def run(ctx):
         o2 = hist.run_histories(ctx, [e2])
         return e2, o2[0]
 
-    for i in sm[:2]:
+    for i in sm[:1]:
         e2, o2 = shrink(i, "SM")
         out["spec_violations"].append({
             "events": [list(x) for x in e2], "sql": [hist.sql_stmt(x[1]) for x in e2 if x[0] == "stmt"],
             "observed": o2, "what": "table contents differ from the plain in-memory model of the statements (Spec/TableSpec.v)"})
-    for i in mm[:2]:
+    for i in mm[:1]:
         e2, o2 = shrink(i, "MM")
         out["model_mismatches"].append({"events": [list(x) for x in e2],
                                         "sql": [hist.sql_stmt(x[1]) for x in e2 if x[0] == "stmt"], "observed": o2})
